@@ -96,6 +96,10 @@ def run(ctx):
         for c, tr, o in zip(cases, traces, raw):
             if tr is None:
                 raise core.CheckFailure("infer harness could not run a %s case: %s" % (fam, (o or "")[:400]))
+            if L.died(o) and len(viol) < 3:
+                viol.append(1)
+                ctx.violation({"kind": "property", "what": "relate did not return: the process aborted (native stack overflow) or hung at step %d" % len(tr),
+                               "case": sx.to_sexp(L.harness_case(c[0], c[1], c[2][:len(tr) + 1])), "harness": (o or "")[:300]})
             check_history(ctx, fam, c, tr, viol, stats)
             for s, sr in zip(c[2], tr):
                 if s != "SNewUniverse" and s[0] in ("SRelate", "SBoth"):
